@@ -485,7 +485,7 @@ func c15(c *fw.Ctx) {
 		c.Run(fmt.Sprintf("hinted-capacity/%d", v), func(r *fw.Rec) {
 			rng := r.Rng
 			capH := qrref.CapacityWithHeader(v, qrref.M, qrref.Byte, 12)
-			for _, n := range []int{capH, capH - 1, capH - 2, capH - 3} {
+			for _, n := range []int{capH, capH - 1, capH - 2, capH - 3, capH + 1, capH + 2, capH + 3} {
 				if n < 2 {
 					continue
 				}
@@ -827,7 +827,7 @@ func c15(c *fw.Ctx) {
 	c.Floor("utf8_nohint_kind_7", 100)
 	c.Floor("utf8_nohint_kind_8", 100)
 	c.Floor("utf16be_ascii_only_texts", 50)
-	c.Floor("hinted_texts_at_version_capacity", 140)
+	c.Floor("hinted_texts_at_version_capacity", 250)
 	c.Floor("double_byte_codes_covered_Shift_JIS", 6000)
 	c.Floor("double_byte_codes_covered_Big5", 3000)
 	c.Floor("double_byte_codes_covered_GB18030", 5000)
